@@ -33,6 +33,11 @@ def gen_case(rng):
                 if rng.random() < 0.8:
                     grow(rel + "/", depth + 1)
     grow("", 0)
+    # scenarios with several path arguments need sibling directories with unknown content around them
+    multi = rng.random() < 0.3
+    if multi:
+        files.update({"aa/u1.txt": "x", "aa/in/u4.txt": "x", "bb/u2.txt": "x", "cc/u3.txt": "x", "top_u.txt": "x"})
+        dirs.update({"aa", "aa/in", "bb", "cc"})
     files = {k: v for k, v in files.items() if not any(k.startswith(d + "/") and False for d in dirs)}
     # a file cannot also be a directory
     files = {k: v for k, v in files.items() if k not in dirs and not any(x.startswith(k + "/") for x in list(files) + list(dirs))}
@@ -95,7 +100,11 @@ def gen_case(rng):
             "mods": mods,
             "path_args": [], "known_rel": sorted(set(known)), "cfg_exclude": cfg_exclude}
     r = rng.random()
-    if r < 0.15 and dirs:
+    if multi:
+        # several path arguments: distinct directories, nested ones, the root together with a directory, repeats
+        a, b = rng.sample(["aa", "bb", "cc"], 2)
+        case["path_args"] = rng.choice([[a, b], [a, b], [b, a], [a, b, a], [".", a], [a, "."], [a, a], ["aa", "aa/in"], ["aa/in", "aa"]])
+    elif r < 0.15 and dirs:
         case["path_args"] = [rng.choice(sorted(dirs))]
     elif r < 0.22 and ".pytask/data_catalogs/default/abc.pkl" in files:
         case["path_args"] = [".pytask/data_catalogs/default"]       # F14
@@ -104,7 +113,7 @@ def gen_case(rng):
     if args:
         keep = set()
         for m, paths in mods.items():
-            if any(m == a or m.startswith(a.rstrip("/") + "/") for a in args):
+            if any(a == "." or m == a or m.startswith(a.rstrip("/") + "/") for a in args):
                 keep.update(paths)
         case["known_rel"] = sorted(keep)
     return case
@@ -146,6 +155,12 @@ def run(out, tier, seed, proof):
     flat_res = [r for rr in res_chunks for r in rr]
     terms, keep = [], []
     for c, r in zip(flat_cases, flat_res):
+        if "error" not in r and r["dry"]["rc"] == 0 and r["force"]["rc"] != 0:
+            # the dry run lists, the force run fails: it did not remove exactly what was listed
+            left = sorted({e for e, _ in r["after_force"]} & {l.split(" ", 1)[1] for l in r["dry"]["lines"] if " " in l})
+            out.violation("force mode failed although dry-run mode listed the same paths without error"
+                          + (f"; listed paths were left behind: {left[:5]}" if left else ""),
+                          {"case": c, "dry_lines": r["dry"]["lines"], "force_tail": r["force"]["tail"][-600:]})
         if "error" in r or r["dry"]["rc"] != 0 or r["force"]["rc"] != 0:
             out.disagreement("pytask clean did not run", {"case": c, "result": r})
             continue
@@ -191,6 +206,7 @@ def run(out, tier, seed, proof):
                  nontrivial=bool(removed))
         out.count("with_git" if c["git"] else "no_git")
         out.count("removed_entries", len(removed_top))
+        listed = {q for q in listed if not any(q.startswith(z + "/") for z in listed if z != q)}     # nested arguments
         if got != listed:
             out.disagreement("removed paths differ from the model listing", {"case": c, "impl_removed": sorted(got), "model": sorted(listed)})
         # ---- direct oracle
@@ -201,7 +217,10 @@ def run(out, tier, seed, proof):
             out.violation("dry-run mode removed something", {"case": c, "gone": sorted(gone)})
         if [l.replace("Would remove", "Remove") for l in r["dry"]["lines"]] != r["force"]["lines"]:
             out.violation("force mode does not remove exactly what dry-run lists", {"dry": r["dry"]["lines"], "force": r["force"]["lines"]})
-        if len(r["force"]["lines"]) != len(removed_top):
+        # (with nested path arguments a directory and something inside it can both be listed)
+        lp = {l.split(" ", 1)[1] for l in r["force"]["lines"] if " " in l}
+        ltop = {q for q in lp if not any(q.startswith(z + "/") for z in lp if z != q)}
+        if len(ltop) != len(removed_top):
             out.violation("number of printed paths differs from the number of removed entries", {"lines": r["force"]["lines"], "removed": sorted(removed_top)})
         protected = {pre + k for k in c["known_rel"]} | {pre + "pyproject.toml"}
         tracked = set(c["git_add"])
